@@ -917,4 +917,11 @@ def propEval {α : Type} [Add α] [Mul α] [Zero α] [One α] (ns ms : List Nat)
     (D x : V α) : V α :=
   dftInvCodedNd ns ms wns s' (fun f => D f * dftFwdPad ns ms ws s x f)
 
+
+/-- the propagator the documentation promises for `pad_factor > 1`: the same with the documented inverse of the padded
+    transform (inverse at the padded shape, then crop) -/
+def propEvalDoc {α : Type} [Add α] [Mul α] [Zero α] [One α] (ns ms : List Nat) (ws wms : List (Option α)) (s s' : α)
+    (D x : V α) : V α :=
+  dftInvDocNd ns ms wms s' (fun f => D f * dftFwdPad ns ms ws s x f)
+
 end Scico.LinOps
